@@ -1,0 +1,18 @@
+//go:build verif
+
+package types
+
+// Contracts for the verification machinery in /verif (comment-only file; no code).
+//
+// verif:import exported github.com/teleport-network/teleport/x/xibc/exported
+// verif:import codectypes github.com/cosmos/cosmos-sdk/codec/types
+// verif:spec unpackedClient(a *codectypes.Any) exported.ClientState
+// verif:spec unpackedConsensus(a *codectypes.Any) exported.ConsensusState
+
+// verif:func UnpackClientState
+//@ names [fn] result1 == nil ==> result == unpackedClient(any)
+//@ ensures [non-nil] result1 == nil ==> result != nil
+
+// verif:func UnpackConsensusState
+//@ names [fn] result1 == nil ==> result == unpackedConsensus(any)
+//@ ensures [non-nil] result1 == nil ==> result != nil
